@@ -597,6 +597,50 @@ impl Memfs {
     }
 }
 
+#[cfg(feature = "verif")]
+impl Memfs {
+    /// Plain data copy of the complete internal state. Doesn't report guard events.
+    pub fn verif_dump(&self) -> crate::verif::Dump {
+        let (guard, poisoned) = match self.0.read() {
+            Ok(x) => (x, false),
+            Err(x) => (x.into_inner(), true),
+        };
+        crate::verif::Dump {
+            cwd: guard.cwd.clone(),
+            root: guard.root.clone(),
+            poisoned,
+            entries: guard
+                .entries
+                .iter()
+                .map(|(k, v)| crate::verif::DumpEntry {
+                    key: k.clone(),
+                    path: v.path.clone(),
+                    alt: v.alt.clone(),
+                    rel: v.rel.clone(),
+                    dir: v.dir,
+                    file: v.file,
+                    link: v.link,
+                    mode: v.mode,
+                    uid: v.uid,
+                    gid: v.gid,
+                    follow: v.follow,
+                    children: v.files.as_ref().map(|x| x.iter().cloned().collect()),
+                })
+                .collect(),
+            files: guard
+                .files
+                .iter()
+                .map(|(k, v)| crate::verif::DumpFile {
+                    key: k.clone(),
+                    path: v.path.clone(),
+                    pos: v.pos,
+                    data: v.data.clone(),
+                })
+                .collect(),
+        }
+    }
+}
+
 impl fmt::Display for Memfs {
     fn fmt(&self, f: &mut fmt::Formatter) -> fmt::Result {
         let guard = self.0.read().unwrap();
